@@ -205,7 +205,7 @@ def run(ctx):
         fails = []
         for nnode, e in b.edge_nodes().items():
             c = F.edge_cond(b, e)
-            if c.kind == 'disc' and c.value == 1 and c.expr.k == 'call' and re.search(r'read_exact$|postcard::from_bytes$', c.expr.a):
+            if c.kind == 'disc' and c.variant_is(1) and c.expr.k == 'call' and re.search(r'read_exact$|postcard::from_bytes$', c.expr.a):
                 # the first read_exact (size prefix) ends the loop; only in-loop data reads count
                 fails.append((nnode, c))
             if c.kind == 'bool' and not c.truth and c.expr.k == 'call' and c.expr.a.endswith('::verify_wal_entry'):
